@@ -253,7 +253,8 @@ pub fn gen_net(r: &mut Rng, big: bool) -> NetSpec {
             1 => vec![1, sizes[0]],
             4 => vec![2, r.range(1, 3), sizes[0]],
             5 => vec![2, r.range(1, 2), r.range(1, 2), sizes[0]],
-            _ => vec![r.range(2, 4), sizes[0]],
+            // (one batched stack in four sees a batch of 5..13 rows)
+            _ => vec![if r.chance(1, 4) { r.range(5, 13) } else { r.range(2, 4) }, sizes[0]],
         };
         NetSpec { layers, in_dims, ce, lr }
     }
